@@ -116,9 +116,9 @@ def c11dbgdl (a : List String) (obs : String) : String × String :=
       | none => fixedNonce
     let resp := replaceAll (hexOr respS) (strBytes "@ACCEPT@") (acceptOf nonce)
     let plain := if mode == "dialfail" then "io:fail proto=- exts=- rest=-" else dlOutcomeStr cfg nonce (srcOf resp (natOr k) "E")
-    let model := s!"same=1 calls=1/1 repreq={getF obs "repreq"} sentreq={getF obs "sentreq"} represp={getF obs "represp"} {plain}"
+    let model := s!"same=1 calls=1/1 repreq={getF obs "repreq"} sentreq={getF obs "sentreq"} represp={getF obs "represp"} others=1 {plain}"
     let verdict :=
-      if getF obs "same" != "1" then "bad:debug-dialer-changes-outcome-or-post-handshake-bytes"
+      if getF obs "same" != "1" || getF obs "others" != "1" then "bad:debug-dialer-changes-outcome-or-post-handshake-bytes"
       else if getF obs "calls" != "1/1" then "bad:debug-dialer-callback-count"
       else if getF obs "repreq" != getF obs "sentreq" then "bad:debug-dialer-request-report"
       else if mode == "dialfail" then (if getF obs "represp" == "-" then "ok" else "bad:debug-dialer-response-report")
